@@ -215,7 +215,10 @@ pub fn paint_minus_and_plus_lines_side_by_side(
             }
             // Duplicating the logic from `linenumbers_and_styles()` a bit:
             (State::HunkMinusWrapped | State::HunkPlusWrapped, _, _, _) => {}
-            (_, _, Some(_), Some(_)) => line_numbers_data.line_number[Left] += 1,
+            (_, _, Some(_), Some(_)) => {
+                line_numbers_data.line_number[Left] =
+                    line_numbers_data.line_number[Left].saturating_add(1)
+            }
             _ => {}
         }
     }
